@@ -89,6 +89,8 @@ def check(run):
         for b in disp:
             pairs += [a, b]
     determinism(run, "dispatch-pairs", pairs)
+    cond = ef.eval_model_and_replay(run, "cond", ef.mceval_cfg("c16-cond", family="cond"), "C16", sample_filter=lambda r: True)
+    determinism(run, "cond", cond + cond)
     ef.eval_trace(run, "concurrent", 16000 if thorough else 2400, run.seed + 21, "C16", threads=8)
     run.exhaustive = False
     run.assumptions += ["handler identity in the registry snapshot is the Arc pointer; evaluations of the harness's own cases re-register their marker handlers, so across cases names and configuration are compared",
